@@ -303,7 +303,7 @@ func c09Text(c *fw.Ctx, fam string, idx int, text string, viaCLI bool) {
 			}
 		}
 		// the same text piped through standard input prints the same
-		if len(rs) > 0 {
+		if len(rs) > 0 && (idx%4 == 0 || fam == "lastline" || fam == "dates") {
 			in := text
 			r := clidrv.Run(clidrv.Home("home-nobookmarks"), clidrv.Opts{Now: fixedNow, OSStdin: &in}, "print", "--no-style", "--no-warn")
 			if r.Panicked || r.Code != 0 || r.Stdout != want {
